@@ -9,7 +9,7 @@ import (
 
 func init() {
 	register("C08", "other", "T7 Pairing (write-through caches), provenance (bootstrap reads persisted state), T2 Dominates (branch info persisted with the vectors), linear normaliser (frame bookkeeping)",
-		"Decides the structure that makes a restart at an event boundary invisible: the consensus store's cached last-decided state and epoch state are write-through — every setter stores the same value in the cache and in the table, the getters fill the cache only from the table, nobody else writes those cache fields — so what a fresh instance reads is what the running one saw; Bootstrap builds the election from the persisted validators, the persisted last decided frame + 1, the index's forkless-cause function and the stored roots, and wires the epoch database callback to reset the vector index over the persisted index table with the stored validators; the vector engine persists its branch info before flushing the vector data, and the index is flushed only after the consensus step (so no boundary has consensus state ahead of the index); frame bookkeeping as in C02. Equality of the later behaviour is not decided.",
+		"Decides the structure that makes a restart at an event boundary invisible: the consensus store's cached last-decided state and epoch state are write-through — every setter stores the same value in the cache and in the table, the getters fill the cache only from the table, nobody else writes those cache fields — so what a fresh instance reads is what the running one saw; Bootstrap builds the election from the persisted validators, the persisted last decided frame + 1, the index's forkless-cause function and the stored roots, and wires the epoch database callback to reset the vector index over the persisted index table with the stored validators; the vector engine persists its branch info before flushing the vector data, and the index is flushed only after the consensus step (so no boundary has consensus state ahead of the index); frame bookkeeping as in C02; every function that owns the election (creates or resets it) and persists a new epoch state, directly or in a callee, (re)sets the election with exactly those validators on every successful path after the write, and never resets it with validators that were not persisted first — so the in-memory election equals the one Bootstrap would rebuild from the store at any boundary. Equality of the later behaviour is not decided.",
 		[]string{"main and epoch databases are correct stores (C22/C23)", "the application restarts over the databases as they were at an event boundary"},
 		runC08)
 }
@@ -143,13 +143,19 @@ func runC08(c *core.Ctx) {
 		}
 		c.Check(okE, "the persisted epoch's database is opened", "provenance", wherePos, "openEpochDB(store.GetEpoch())", "a different epoch's database is opened on restart")
 		// the EpochDBLoaded callback is invoked with the stored epoch
-		cb := c09funcFieldCalls(bs, "abft.OrdererCallbacks.EpochDBLoaded")
-		okCB := len(cb) == 1 && len(cb[0].Call.Args) == 1 && isCallTo(bs, cb[0].Call.Args[0], "abft.Store.GetEpoch") != nil
+		// (directly, or in a helper that invokes the callback unless it is not set)
+		cb := c09callbackSites(bs, "abft.OrdererCallbacks.EpochDBLoaded")
+		okCB := len(cb) == 1 && len(cb[0].Inner().Call.Args) == 1
 		if okCB {
-			okCB, _ = bs.MustPassBefore([]core.Point{cb[0].Pt}, news[0].Pt)
+			ag, arg := c08arg(cb[0], 0)
+			okCB = ag != nil && isCallTo(ag, arg, "abft.Store.GetEpoch") != nil
+		}
+		if okCB {
+			at := cb[0].Outer().Pt
+			okCB, _ = bs.MustPassBefore([]core.Point{at}, news[0].Pt)
 			// unless nil
 			if !okCB {
-				_, found := core.PathQuery{F: bs, From: bs.Entry(), Target: core.PointSet(news[0].Pt), Avoid: core.PointSet(cb[0].Pt), AvoidEdge: bs.GuardEdges(c09fieldNilFact(bs, "abft.OrdererCallbacks.EpochDBLoaded", true))}.Find()
+				_, found := core.PathQuery{F: bs, From: bs.Entry(), Target: core.PointSet(news[0].Pt), Avoid: core.PointSet(at), AvoidEdge: bs.GuardEdges(c09fieldNilFact(bs, "abft.OrdererCallbacks.EpochDBLoaded", true))}.Find()
 				okCB = !found
 			}
 		}
@@ -198,6 +204,8 @@ func runC08(c *core.Ctx) {
 	})
 
 	c.Clause("C08.frame", func() { frameBookkeeping(c) })
+
+	c08Election(c)
 }
 
 // methodNamedSel: does the selector denote a method (value) with this name?
